@@ -119,7 +119,7 @@ func c10Request(c *fw.Case, ts *pdus.Tables, t *pdus.Type) {
 	// SetSequenceID is observable through the getter and at the header offset
 	x := c.R.U32()
 	if c.R.Chance(1, 4) {
-		x = uint32(c.R.Pick(0, 1, 0x7fffffff, 0x80000000, 0xffffffff))
+		x = []uint32{0, 1, 0x7fffffff, 0x80000000, 0xffffffff}[c.R.Intn(5)]
 	}
 	var b []byte
 	var err error
